@@ -253,6 +253,39 @@ theorem C04_read_is_spec (h : HMap) :
           | none => simp [hdec, hv]
           | some d => simp [hdec, hv, hvalid]
 
+/-- **Reading what any conformant peer wrote.** Take any header block whose `grpc-status` is the
+decimal of a code, whose `grpc-message` is *some* percent-encoding of a valid-UTF-8 message (any
+set of escaped bytes that includes `%`, upper- or lower-case hex — not necessarily tonic's own
+choice) and whose `grpc-status-details-bin` is the base64 of the details *with or without
+padding*, plus arbitrary other headers: the reader returns exactly that code, message and
+details, and the other headers as metadata. -/
+theorem C04_reads_any_conformant_peer (c : Code) (msg det : Bytes) (others : HMap)
+    (esc : UInt8 → Bool) (lower pad : Bool) (hesc : esc Pct.PCT = true)
+    (hutf : Utf8.valid msg = true)
+    (ho : HMap.getAll GRPC_STATUS others = [] ∧ HMap.getAll GRPC_MESSAGE others = [] ∧
+          HMap.getAll GRPC_STATUS_DETAILS others = []) :
+    fromHeaderMap .fixed
+        (others ++ [(GRPC_STATUS, c.headerValue), (GRPC_MESSAGE, Pct.encodeWith esc lower msg),
+                    (GRPC_STATUS_DETAILS, B64.encode pad det)]) =
+      some (.status { code := c, message := msg, details := det,
+                      metadata := stripStatus (others ++ [(GRPC_STATUS, c.headerValue),
+                        (GRPC_MESSAGE, Pct.encodeWith esc lower msg), (GRPC_STATUS_DETAILS, B64.encode pad det)]) }) := by
+  obtain ⟨n1, n2, n3, _, _, _⟩ := names_ne
+  obtain ⟨o1, o2, o3⟩ := ho
+  have gS : HMap.get GRPC_STATUS (others ++ [(GRPC_STATUS, c.headerValue), (GRPC_MESSAGE, Pct.encodeWith esc lower msg),
+      (GRPC_STATUS_DETAILS, B64.encode pad det)]) = some c.headerValue := by
+    simp [HMap.get, HMap.getAll_append_list, o1, HMap.getAll_cons, HMap.getAll_nil]
+  have gM : HMap.get GRPC_MESSAGE (others ++ [(GRPC_STATUS, c.headerValue), (GRPC_MESSAGE, Pct.encodeWith esc lower msg),
+      (GRPC_STATUS_DETAILS, B64.encode pad det)]) = some (Pct.encodeWith esc lower msg) := by
+    simp [HMap.get, HMap.getAll_append_list, o2, HMap.getAll_cons, HMap.getAll_nil, n1]
+  have gD : HMap.get GRPC_STATUS_DETAILS (others ++ [(GRPC_STATUS, c.headerValue), (GRPC_MESSAGE, Pct.encodeWith esc lower msg),
+      (GRPC_STATUS_DETAILS, B64.encode pad det)]) = some (B64.encode pad det) := by
+    simp [HMap.get, HMap.getAll_append_list, o3, HMap.getAll_cons, HMap.getAll_nil, n2, n3]
+  have hv : Utf8.validate msg = none := by simpa [Utf8.valid] using hutf
+  have hcode : Code.fromBytes c.headerValue = c := by cases c <;> decide
+  unfold fromHeaderMap decodeMessage stripStatus
+  simp only [gS, gM, gD, Pct.decode_encodeWith esc lower hesc, hv, B64.decode_encode, hcode]
+
 /-- The `grpc-status` value is parsed by the exact table: each code's decimal gives that code
 and every other byte string (empty, sign, leading zero, space, three digits, 17…) gives UNKNOWN. -/
 theorem C04_code_parse_is_spec (bs : Bytes) : (Code.fromBytes bs).num = Spec.Status.readCode bs :=
